@@ -1,6 +1,6 @@
 (* C04  Project completion: Run() ends when all are terminal, with the right exit code.
-   (level: PROOF over the supervisor model Sup, PARTIAL: one decidable side condition on the history,
-   shown necessary by a machine-checked counterexample; NO window hypothesis of known_findings.json.)
+   (level: PROOF over the (hardened) supervisor model Sup for the safety half of the property text:
+   NO side condition, NO window hypothesis of known_findings.json, no well-formedness of configurations.)
    This file contains only statements; every proof is `exact <lemma>` (lemmas: Sup/RelC04.v).
 
    What the monitor holds_C04 / mon_C04 (Sup/Monitors.v) checks, in words.  The observer folds the history
@@ -21,10 +21,10 @@
    The liveness half of the property text ("it does return", "never waits forever") is not a property of
    finite accepted histories; it is covered by the monitor-only test of checks/C04.py (quiescence).
 
-   The side condition  C04_disciplined cs evs = true  (Sup/RelC04.v, decidable, computed by folding a
-   small ghost record along the history) says: every `EBegin i` (goroutine of instance i starts) is
-   preceded by an `ESpawn i` (waitGroup.Add(1) + go).  The model itself does not force this order; the
-   instrumented code always produces it. *)
+   History: the first version needed two side conditions.  (b) "no API shutdown between exit_trigger and
+   exitCodeOnce.Do" went away when the observer made "project exit code fixed" observable; (a) "every EBegin
+   is preceded by its ESpawn" went away when the model staged instance creation (Model.v `stage`): EBegin i
+   is accepted only after do_spawn (waitGroup.Add) of i. *)
 From Coq Require Import List ZArith NArith Bool.
 From PC.Base Require Import Assoc.
 From PC.Sup Require Import Model Monitors Check RelC04.
@@ -32,14 +32,14 @@ Import ListNotations.
 
 (* for ALL configurations (any dependency graph, policies, exit_on_* settings, several triggers),
    both shutdown modes, and ALL accepted histories (all interleavings, exit codes, API calls): *)
-Theorem C04_main_partial : forall cs ord evs s,
-  accept (init cs ord) evs = Some s -> C04_disciplined cs evs = true -> holds_C04 cs evs = true.
-Proof. exact C04_main_partial_lemma. Qed.
-Print Assumptions C04_main_partial.
+Theorem C04_main : forall cs ord evs s,
+  accept (init cs ord) evs = Some s -> holds_C04 cs evs = true.
+Proof. exact C04_main_lemma. Qed.
+Print Assumptions C04_main.
 
 (* the same, with the monitor unfolded: at every position k of the history that is a Run() return *)
 Theorem C04_declarative : forall cs ord evs s,
-  accept (init cs ord) evs = Some s -> C04_disciplined cs evs = true ->
+  accept (init cs ord) evs = Some s ->
   forall k th c, nth_error evs k = Some (th, ERunReturn c) ->
     let o := obs_at cs evs k in
     (forall x, In x (vals (oi o)) -> o_alive x = true -> o_byapi x = true) /\
@@ -50,28 +50,30 @@ Theorem C04_declarative : forall cs ord evs s,
 Proof. exact C04_declarative_lemma. Qed.
 Print Assumptions C04_declarative.
 
-(* Without the side condition the statement is false of the model, in a history that goes through none
-   of the known windows: a goroutine that was never added to the wait group still has its command
-   alive when Run() returns (10 events). *)
-Theorem C04_refuted_nospawn :
-  exists cs ord evs s, accept (init cs ord) evs = Some s /\ no_windows cs evs = true /\ holds_C04 cs evs = false.
-Proof. exact C04_refuted_nospawn_lemma. Qed.
-Print Assumptions C04_refuted_nospawn.
+(* Regression for the former model looseness "EBegin without ESpawn": the 10-event history in which a
+   goroutine that was never added to the wait group still had its command alive at Run()'s return is
+   now REJECTED by the model, and a history that is in program order except for the missing ESpawn is
+   rejected exactly at the EBegin (position 4). *)
+Example C04_nospawn_rejected :
+  accept (init C04Refute.cs1 false) C04Refute.evs1 = None /\
+  accept (init C04Refute.cs1b false) C04Refute.evs1b = None /\
+  fst (accept_prefix (init C04Refute.cs1b false) C04Refute.evs1b 0) = 4.
+Proof. exact C04_nospawn_rejected_lemma. Qed.
 
 (* Regression for the former finding "API shutdown between exit_trigger and exitCodeOnce.Do" (84 events:
    A, exit_on_failure, fails with 3 and is parked in front of exitCodeOnce.Do; a shutdown requested through
    the API kills B, exit_on_failure, which exits with 7 and fixes the project exit code first; Run()
    returns 7).  The observer now records that the API shutdown took its snapshot before the code was
    fixed (o_api_sd_first), so the monitor accepts the code of any trigger: the history is accepted by
-   the model, disciplined, and satisfies the monitor. *)
+   the model and satisfies the monitor. *)
 Example C04_api_shutdown_race_regression :
-  accepted_hist C04Refute.cs2 false C04Refute.evs2 = true /\ C04_disciplined C04Refute.cs2 C04Refute.evs2 = true /\
+  accepted_hist C04Refute.cs2 false C04Refute.evs2 = true /\
   holds_C04 C04Refute.cs2 C04Refute.evs2 = true /\ o_api_sd_first (final_obs C04Refute.cs2 C04Refute.evs2) = true.
 Proof. exact C04_api_shutdown_race_ok. Qed.
 
 (* non-vacuity: a recorded history of the implementation (66 events: one exit_on_failure process that fails
    to start, triggers the shutdown, Run() returns 1, and a second shutdown through the API afterwards)
-   is accepted by the model, satisfies the side condition, contains a Run() return, and the monitor holds *)
+   is accepted by the model, contains a Run() return, and the monitor holds *)
 Definition ex_conf : amap pconf :=
    [(0%N, mkConf [] PExitOnFailure 1 0%N false false false false true false false)].
 Definition ex_evs : list (tid * event) := [
@@ -90,6 +92,6 @@ Definition ex_evs : list (tid * event) := [
   (3%N, EShutdownUnlocked); (2%N, ERegDel 1%N); (2%N, EInstGone); (3%N, EResume); (3%N, EApiReturn true);
   (3%N, EResume); (1%N, EResume); (1%N, EApiReturn false); (1%N, EResume)].
 Example C04_nonvacuous :
-  accepted_hist ex_conf false ex_evs = true /\ C04_disciplined ex_conf ex_evs = true /\
+  accepted_hist ex_conf false ex_evs = true /\
   length ex_evs = 66 /\ In (1%N, ERunReturn 1%Z) ex_evs /\ holds_C04 ex_conf ex_evs = true.
 Proof. repeat split; try (vm_compute; reflexivity). vm_compute. tauto. Qed.
